@@ -16,8 +16,8 @@ def run(ctx):
         s = parse_state(c)
         if not s['picked']:
             continue
-        cfg = {'shape': s['cfg']['shape'], 'cols': list(s['cfg']['cols']), 'sub': s['cfg']['sub'], 'fmt': s['cfg']['fmt']}
-        key = (cfg['shape'], tuple(cfg['cols']), cfg['sub'], cfg['fmt'])
+        cfg = {'shape': s['cfg']['shape'], 'cols': list(s['cfg']['cols']), 'sub': s['cfg']['sub'], 'fmt': s['cfg']['fmt'], 'vals': s['cfg']['vals']}
+        key = (cfg['shape'], tuple(cfg['cols']), cfg['sub'], cfg['fmt'], cfg['vals'])
         if key in seen:
             continue
         seen.add(key)
